@@ -152,6 +152,22 @@ impl Value {
     pub fn kind(&self) -> u8 {
         self.tag
     }
+    /// fmt-free rendering (inherent, so that `value.to_string()` does not go through core::fmt); only the
+    /// shape matters to the code under verification, not the exact JSON text (text codec is not modelled)
+    pub fn to_string(&self) -> String {
+        match self.tag {
+            T_NULL => "null".to_owned(),
+            T_BOOL => if self.b != 0 { "true".to_owned() } else { "false".to_owned() },
+            T_STRING => {
+                let mut o = String::with_capacity(16);
+                o.push('"');
+                o.push_str(self.as_str().unwrap_or(""));
+                o.push('"');
+                o
+            }
+            _ => "?".to_owned(),
+        }
+    }
     pub fn is_null(&self) -> bool {
         self.tag == T_NULL
     }
